@@ -72,7 +72,13 @@ class Highlighter(object):
     def highlighted_lines(self, source):
         source = source.replace("\r\n", "\n").replace("\r", "\n")
 
-        return self.split_to_lines(source)
+        try:
+            return self.split_to_lines(source)
+        except (tokenize.TokenError, SyntaxError):
+            # The source is not (complete) Python code: show it as it is
+            formatter = PlainFormatter()
+
+            return [formatter.remove_format(line) for line in source.split("\n")]
 
     def split_to_lines(self, source):
         lines = []
